@@ -305,7 +305,9 @@ func c06Gen(tier string, rng *rand.Rand, emit func(interface{})) {
 		for _, p := range grid {
 			emit(c06Case{Op: 0, N: n, P: F64(p)})
 		}
-		if thorough || n <= 16 || n%5 == 0 {
+		// quick: every N to 16, every 5th to 30, every 10th above (35, 45, 55 dropped in round 2c to pay for (b3):
+		// the same P are there at both ends of the support for N <= 30, and 40, 50, 60 keep the full grid)
+		if thorough || n <= 16 || (n <= 30 && n%5 == 0) || n%10 == 0 {
 			for _, p := range wide {
 				emit(c06Case{Op: 0, N: n, P: F64(p)})
 			}
